@@ -366,8 +366,16 @@ func (c *client) findClients(ctx context.Context, batch []hrpc.Call, res []hrpc.
 	rpcByClient := make(map[hrpc.RegionClient][]hrpc.Call)
 	ok := true
 	for i, rpc := range batch {
-		rc, err := c.getRegionAndClientForRPC(ctx, rpc)
+		// wait for the region no longer than the call's own context allows
+		rpcCtx, cancel := context.WithCancel(ctx)
+		stop := context.AfterFunc(rpc.Context(), cancel)
+		rc, err := c.getRegionAndClientForRPC(rpcCtx, rpc)
+		stop()
+		cancel()
 		if err != nil {
+			if ctx.Err() == nil && rpc.Context().Err() != nil {
+				err = rpc.Context().Err()
+			}
 			res[i].Error = err
 			ok = false
 			continue // see if any more RPCs are missing regions
@@ -412,6 +420,28 @@ loop:
 				default:
 					unretryableError = true
 				}
+			}
+
+		case <-rpc.Context().Done():
+			// The context of this call has ended. It may differ from the
+			// context of the batch: the region client drops such a call, so
+			// a result may never arrive. Take the result if there is one,
+			// otherwise fail this call only.
+			if ctx.Err() != nil {
+				canceledIndex = i
+				ok = false
+				break loop
+			}
+			ok = false
+			unretryableError = true
+			select {
+			case res := <-rpc.ResultChan():
+				results[rpcToRes[rpc]] = res
+				if res.Error != nil {
+					c.handleResultError(res.Error, rpc.Region(), rc)
+				}
+			default:
+				results[rpcToRes[rpc]].Error = rpc.Context().Err()
 			}
 
 		case <-ctx.Done():
